@@ -924,6 +924,72 @@ def _alloc_check(r, f, c, key, chain):
                       "reading a file cannot size it")
 
 
+# ------------------------------------------------------------------------------------------------
+def r12_keyed_read_before_write(idx, r):
+    """On reading, the argument of an rw* call is evaluated before anything was stored. If it indexes a
+    plain dict that the data class creates empty (`self.x = {}`) with a file-derived key, reading raises
+    KeyError; the tolerant forms are `.get(key)` or a pre-filled / defaulting mapping."""
+    empty_dicts = {}
+    for c in idx.all_classes():
+        if not c.module.name.startswith("armi.nuclearDataIO"):
+            continue
+        init = c.methods.get("__init__")
+        if init is None:
+            continue
+        for st in iter_stores(init.node):
+            if st.kind == "assign" and st.chain.startswith("self.") and st.chain.count(".") == 1:
+                v = st.value
+                if (isinstance(v, ast.Dict) and not v.keys) or (isinstance(v, ast.Call) and dotted(v.func) == "dict" and not v.args and not v.keywords):
+                    empty_dicts.setdefault(st.attr, []).append(c)
+    if not empty_dicts:
+        raise AnchorMissing("no data class under armi.nuclearDataIO creates an empty dict attribute")
+
+    def bad_loads(expr):
+        for n in ast.walk(expr):
+            if isinstance(n, ast.Subscript) and isinstance(n.ctx, ast.Load) and isinstance(n.value, ast.Attribute) and n.value.attr in empty_dicts:
+                if not isinstance(n.slice, ast.Constant):
+                    yield n
+
+    n_sites = 0
+    for m, f, c, par in _rw_sites(idx):
+        if not c.args:
+            continue
+        arg = propagate(c.args[0], _alias_env(f.node))
+        if isinstance(arg, ast.Name):
+            # re-assigned local: take the definition in the nearest preceding sibling statement
+            st = c
+            while st in par and not (isinstance(st, ast.stmt) and any(st in getattr(par[st], fld, []) for fld in ("body", "orelse", "finalbody") if isinstance(getattr(par[st], fld, None), list))):
+                st = par[st]
+            if st in par:
+                for fld in ("body", "orelse", "finalbody"):
+                    sibs = getattr(par[st], fld, None)
+                    if isinstance(sibs, list) and st in sibs:
+                        for prev in reversed(sibs[: sibs.index(st)]):
+                            if isinstance(prev, ast.Assign) and any(isinstance(t, ast.Name) and t.id == arg.id for t in prev.targets):
+                                arg = prev.value
+                                break
+                            if any(isinstance(t, ast.Name) and t.id == arg.id and isinstance(t.ctx, ast.Store) for t in ast.walk(prev)):
+                                break
+        exprs = [(f, arg)]
+        # one level of getter helpers:  x = self._getFoo(k); x = rec.rwT(x, ...)
+        for sub in ast.walk(arg):
+            if isinstance(sub, ast.Call) and isinstance(sub.func, ast.Attribute) and dotted(sub.func.value) == "self" and f.cls is not None:
+                g = f.cls.resolve(sub.func.attr)
+                if g is not None and g.cls is not None and g.cls.module.name.startswith("armi.nuclearDataIO"):
+                    for st in walk_local(g.node):
+                        if isinstance(st, ast.Return) and st.value is not None:
+                            exprs.append((g, st.value))
+        for g, e in exprs:
+            for n in bad_loads(e):
+                n_sites += 1
+                key = f"{m.relpath.rsplit('/', 1)[-1]}:{g.qualname}:{norm(n)[:70]}"
+                r.violate(key, g, f"`{norm(n)}` is evaluated before the value is read from the file; `{n.value.attr}` starts as an empty dict "
+                          f"({empty_dicts[n.value.attr][0].name}.__init__), so reading raises KeyError - use .get()", node=n)
+    r.ok("scan", idx.module(CCCC), msg=f"{len(empty_dicts)} empty-dict attributes, all rw arguments and their getter helpers scanned")
+    for a, cs in sorted(empty_dicts.items()):
+        r.ok(f"empty-dict:{cs[0].name}.{a}", cs[0].methods["__init__"])
+
+
 def run(idx, chk):
     chk.explanation = (
         "C09: static reader/writer agreement for CCCC records: struct formats, byte counters and ASCII field widths of "
@@ -964,3 +1030,5 @@ def run(idx, chk):
                  necessary="aliased fields cannot both hold what was read")
     chk.run_rule("R09.11", "array storage filled element-wise from a record is allocated with the file's dimensions outside __init__", lambda r: r11_allocation(idx, r), floor=6,
                  necessary="reading returns what was written only if the container is sized from the header that was just read")
+    chk.run_rule("R09.12", "no rw* argument indexes a dict that is still empty when the file is being read", lambda r: r12_keyed_read_before_write(idx, r), floor=2,
+                 necessary="the same code reads and writes: an argument that can only be evaluated once the data exists makes the file unreadable")
